@@ -718,6 +718,10 @@ def _extra():
     except Untranslatable as e:
         built = {k: e for k in FALLBACK}
         tree = None
+    import os
+
+    if os.environ.get("VERIF_FORCE_SKIP") == "1":      # self-test: every expression kernel as its hand-written fallback
+        built = {k: Untranslatable("forced by VERIF_FORCE_SKIP") for k in FALLBACK}
     for name, (params, ret, fb) in FALLBACK.items():
         r = built.get(name)
         if isinstance(r, tuple):
